@@ -20,7 +20,7 @@ import (
 // TOp is one step of a timer script. Steps run in order on the driver goroutine; a step with G>0 is
 // issued from a goroutine of its own (concurrent callers) without waiting for it.
 type TOp struct {
-	K     string `json:"k"`               // call cancel sleep burst far gap
+	K     string `json:"k"`               // call cancel sleep burst far gap past saturate equal
 	G     int    `json:"g,omitempty"`     // 0 = inline, >0 = from another goroutine
 	D     int    `json:"d,omitempty"`     // call/burst: delay ms (may be <= 0); sleep: ms; far: seconds
 	Block int    `json:"block,omitempty"` // call: the callback blocks this many ms
@@ -112,6 +112,45 @@ func (r *runner) call(d time.Duration, block time.Duration, far bool) *frec {
 	f.fut = fu
 	r.mu.Unlock()
 	return f
+}
+
+// equalGroup schedules n futures with one and the same fire instant: the first with the delay d, the others with the delay
+// that is left, corrected by a guess of the time Call needs before it reads the clock, until the instants match.
+func (r *runner) equalGroup(d time.Duration, n int) []*frec {
+	first := r.call(d, 0, false)
+	aT, ok := fireTime(first.fut)
+	if !ok {
+		return nil
+	}
+	grp := []*frec{first}
+	tries := 0
+	for len(grp) < n && tries < 400000 {
+		tries++
+		f := &frec{}
+		cb := func() {
+			now := time.Since(r.base).Nanoseconds()
+			if f.starts.Add(1) == 1 {
+				f.startNs.Store(now)
+			}
+		}
+		f.t0 = time.Now()
+		f.d = aT.Sub(f.t0) - time.Duration(tries%400)
+		if f.d < d/2 {
+			break
+		}
+		f.fut = timeout.Call(cb, f.d)
+		f.t1 = time.Now()
+		if bT, _ := fireTime(f.fut); !bT.Equal(aT) {
+			f.fut.Cancel()
+			continue
+		}
+		r.mu.Lock()
+		f.id = len(r.futs)
+		r.futs = append(r.futs, f)
+		r.mu.Unlock()
+		grp = append(grp, f)
+	}
+	return grp
 }
 
 func (r *runner) cancel(f *frec, n int) {
@@ -231,6 +270,75 @@ func run(c TCase, check string, info *TInfo) *vstat.Violation {
 				info.class("far_future_beyond_years")
 			}
 			r.call(d, 0, true)
+		case "past":
+			// a delay far below zero (the quantifier's negative delays, taken to the extremes of the Duration range): due at once
+			d := -time.Duration(op.D) * time.Second
+			switch op.N {
+			case 1:
+				d = time.Duration(math.MinInt64)
+			case 2:
+				d = time.Duration(math.MinInt64) + 24*time.Hour
+			case 3:
+				d = -1000 * time.Hour
+			case 4:
+				d = -60 * 8766 * time.Hour // fire time before the Unix epoch
+			case 5:
+				d = -100 * 8766 * time.Hour
+			case 6:
+				d = -time.Since(time.Unix(0, 0)) // about the Unix epoch itself
+			case 7:
+				d = -time.Since(time.Time{}) // about the zero time (saturates)
+			}
+			if op.N > 0 {
+				info.class("past_due_beyond_years")
+			}
+			if pending() > 0 && len(r.pendingView()) > 0 {
+				info.class("past_due_queued_behind_pending")
+			}
+			do(func() { r.call(d, 0, false) })
+		case "saturate":
+			// every worker the pool may have gets a callback that keeps it for op.D ms: what follows meets a pool in which
+			// nobody looks at the queue
+			b := time.Duration(op.D) * time.Millisecond
+			var occ []*frec
+			for i := 0; i < c.MaxWorkers; i++ {
+				occ = append(occ, r.call(0, b, false))
+			}
+			for t := time.Now(); time.Since(t) < 200*time.Millisecond; {
+				all := true
+				for _, f := range occ {
+					if f.starts.Load() == 0 {
+						all = false
+					}
+				}
+				if all {
+					info.class("pool_saturated_by_blocking_callbacks")
+					break
+				}
+				time.Sleep(50 * time.Microsecond)
+			}
+		case "equal":
+			// op.N futures whose fire instants are EXACTLY equal (issued at different moments with matching delays; the
+			// queued instant is read back through the overlay accessor); the ones selected by the bit mask op.F are cancelled
+			if !hooksOn {
+				info.class("equal_instants_need_the_hooks")
+				continue
+			}
+			grp := r.equalGroup(time.Duration(op.D)*time.Millisecond, op.N)
+			if len(grp) < 2 {
+				info.class("equal_instants_not_constructed")
+				continue
+			}
+			info.class("futures_with_exactly_equal_fire_instants")
+			kept := false
+			for i, f := range grp {
+				if op.F&(1<<i) != 0 && (kept || i < len(grp)-1) {
+					r.cancel(f, 1)
+					info.class("cancel_among_equal_fire_instants")
+				} else {
+					kept = true
+				}
+			}
 		case "cancel":
 			pend := r.pendingView()
 			r.mu.Lock()
